@@ -120,6 +120,22 @@ def probe_arity3():
     return Registry('chain2_arity3', LATTICES['chain2'], [(3, [0, 0, 0])], [[[0, 0, 1], [1, 0, 0], [0, 1, 0], [1, 1, 1]]])
 
 
+def probe_uni_ambiguous():
+    # a uni-method (and its (int, virtual) twin) on a diamond with definitions for the two unrelated middle classes only:
+    # the call with the joining class has two applicable definitions and no most specific one
+    return Registry('uni_ambiguous', LATTICES['diamond'], [(1, [0]), (4, [0])], [[[1], [2]], [[1], [2], [0]]])
+
+
+def probe_arity3_gap():
+    # arity 3 where a class of the LAST parameter has no applicable definition at all and the first parameter has two groups
+    return Registry('chain2_arity3_gap', LATTICES['chain2'], [(3, [0, 0, 0])], [[[0, 0, 1], [1, 0, 1], [0, 1, 1]]])
+
+
+def probe_arity3_gap_mid():
+    # same with the gap in the middle parameter, on a tree (three groups per parameter)
+    return Registry('tree3_arity3_gap', LATTICES['tree3'], [(3, [0, 0, 0])], [[[0, 1, 0], [1, 1, 2], [2, 2, 1]]])
+
+
 def family(tier, shapes=(1, 2, 2, 5, 3, 7), max_defs=3, per=None, lattices=None, nm=None, presentation='complete'):
     rnd = random.Random(seed() * 1000003 + 17)
     lat = lattices or (QUICK_LATTICES if tier == 'quick' else ALL_LATTICES)
@@ -136,7 +152,7 @@ def tag(reg, i):
 
 
 def base_regs(tier):
-    regs = [probe_diamond(), probe_mi_unrelated(), probe_next(), probe_arity3(), probe_c06(), probe_three_roots(), probe_nontransitive()]
+    regs = [probe_uni_ambiguous(), probe_arity3_gap(), probe_arity3_gap_mid(), probe_diamond(), probe_mi_unrelated(), probe_next(), probe_arity3(), probe_c06(), probe_three_roots(), probe_nontransitive()]
     regs += family(tier)
     if tier == 'thorough':
         regs += family(tier, shapes=(6, 4, 8, 3), per=1, lattices=['chain3', 'tree3', 'diamond'], nm=1, max_defs=4)
@@ -153,7 +169,7 @@ def c01_queries(tier):
 
 
 def c02_queries(tier):
-    qs = [_q('C02', r, 'errorcell_' + tag(r, i)) for i, r in enumerate(base_regs(tier)[:10 if tier == 'quick' else 30])]
+    qs = [_q('C02', r, 'errorcell_' + tag(r, i)) for i, r in enumerate(base_regs(tier)[:13 if tier == 'quick' else 33])]
     return qs
 
 
@@ -321,7 +337,7 @@ def deferred_queries(pid, tier):
 
 def kernel_queries(pid, tier):
     """best / is_more_specific / is_base on a symbolic inheritance relation: all lattices on NC classes at once."""
-    cfgs = [(3, 2, 2), (4, 2, 2)] if tier == 'quick' else [(3, 3, 2), (4, 2, 2), (4, 3, 1), (4, 2, 3)]
+    cfgs = [(3, 2, 2), (4, 2, 2), (4, 2, 1)] if tier == 'quick' else [(3, 3, 2), (4, 2, 2), (4, 3, 1), (4, 2, 1), (4, 2, 3)]
     qs = []
     for nc, nd, ar in cfgs:
         qs.append(Query('kernel_best_nc%d_nd%d_ar%d' % (nc, nd, ar), 'kernel_best.cpp', {'NC': nc, 'ND': nd, 'AR': ar}, unwind=12, models=True,
